@@ -21,6 +21,9 @@ pub fn check(f: &Facts, stats: &mut Stats) -> CheckResult {
     if f.terms.iter().any(|t| t.obsolete) {
         stats.label("obsolete-terms");
     }
+    if (0..3).all(|k| f.recs[k].iter().any(|r| !r.terms.is_empty())) {
+        stats.label("annotated-with-all-kinds");
+    }
     // (the Builder API ignores flags; with own v3 bytes they are present)
     let m = Model::new(f);
     let up: Vec<_> = m.ids.iter().map(|i| m.up_dist(*i)).collect();
@@ -141,8 +144,10 @@ fn strategy(tier: Tier) -> proptest::strategy::BoxedStrategy<Facts> {
     let max = if tier == Tier::Quick { 16 } else { 22 };
     use proptest::prelude::*;
     prop_oneof![
-        2 => gen::facts(GenCfg::small().terms(1, max).recs(0)),
-        1 => gen::facts(GenCfg::small().terms(2, max).recs(0).standard().with_flags(true).names(crate::gen::NameMode::Capped)),
+        // (two thirds of the ontologies carry gene / disease annotations: distances and paths must not depend on them)
+        1 => gen::facts(GenCfg::small().terms(1, max).recs(0)),
+        1 => gen::facts(GenCfg::small().terms(1, max).recs(4)),
+        1 => gen::facts(GenCfg::small().terms(2, max).recs(4).standard().with_flags(true).names(crate::gen::NameMode::Capped)),
     ]
     .boxed()
 }
@@ -164,7 +169,7 @@ impl Property for C11 {
         }
     }
     fn required_labels(&self, _tier: Tier) -> Vec<&'static str> {
-        vec!["nontrivial", "obsolete-terms", "shorter-route-over-higher-ancestor", "tie", "no-common-ancestor", "diamond", "depth>255"]
+        vec!["nontrivial", "obsolete-terms", "shorter-route-over-higher-ancestor", "tie", "no-common-ancestor", "diamond", "depth>255", "annotated-with-all-kinds"]
     }
     fn run_generated(&self, tier: Tier, seed: u64, n: u64, stats: &mut Stats) -> Option<(Value, Failure)> {
         run_typed(strategy(tier), seed, n, stats, check)
